@@ -18,9 +18,29 @@ impl<const N: usize> WithConst<N> for () { fn arr(&self) -> [u8; N] { [7; N] } }
 pub trait WithWhere<T> where T: Clone { fn dup(&self, t: &T) -> (T, T); }
 impl<T: Clone> WithWhere<T> for () { fn dup(&self, t: &T) -> (T, T) { (t.clone(), t.clone()) } }
 
+// generic traits delegated through a reference the application hands out (seed R15C06): the forwarding
+// expression and the where clause must name the same `dyn Trait<K, N>`
+#[entrait(delegate_by = Borrow)]
+pub trait GenBorrow<K, const N: usize> { fn fill(&self, k: K) -> [K; N] where K: Copy; fn count(&self) -> usize; }
+#[entrait(delegate_by = ref)]
+pub trait GenRef<'a, K: 'a> { fn pick(&self, ks: &'a [K]) -> &'a K; }
+pub struct Filler;
+impl<K, const N: usize> GenBorrow<K, N> for Filler { fn fill(&self, k: K) -> [K; N] where K: Copy { [k; N] } fn count(&self) -> usize { N } }
+impl<'a, K: 'a> GenRef<'a, K> for Filler { fn pick(&self, ks: &'a [K]) -> &'a K { &ks[ks.len() - 1] } }
+pub struct RefApp { filler: Filler }
+impl<K: 'static, const N: usize> ::core::borrow::Borrow<dyn GenBorrow<K, N>> for RefApp { fn borrow(&self) -> &(dyn GenBorrow<K, N> + 'static) { &self.filler } }
+impl<'a, K: 'a> AsRef<dyn GenRef<'a, K> + 'a> for RefApp { fn as_ref(&self) -> &(dyn GenRef<'a, K> + 'a) { &self.filler } }
+
 fn main() {
+    {
+        #[allow(unused_imports)]
+        use ::core::borrow::Borrow;
+        let rapp = Impl::new(RefApp { filler: Filler });
+        let got = (GenBorrow::<u8, 3>::fill(&rapp, 4), GenBorrow::<u16, 5>::count(&rapp));
+        if got != ([4, 4, 4], 5) { println!("C06-PROBE-FAIL borrow {got:?}"); std::process::exit(1); }
+    }
     let app = Impl::new(());
     let got = (app.get("x"), app.def(1), WithConst::<3>::arr(&app), app.dup(&5u8));
     if got != ("x", 2, [7, 7, 7], (5, 5)) { println!("C06-PROBE-FAIL {got:?}"); std::process::exit(1); }
-    println!("C06-PROBE cases=4 failed=0");
+    println!("C06-PROBE cases=6 failed=0");
 }
